@@ -80,7 +80,9 @@ def scenario(e3, n_inst, n_read, name):
     race, extra = sc.race_condition()
     props.append(("no_data_race_on_cell_or_recorder", "two conflicting accesses (one non-atomic) unordered by release/acquire happens-before", race, extra))
     bounds = f"{n_inst} concurrent installers, {n_read} concurrent emitters, every interleaving of their atomic and plain accesses; {sc.stats}"
-    e3.standard(sc, eng, name, bounds, props)
+    roles = {i: f"installer{i}" for i in inst}
+    roles.update({r: f"emitter{r}" for r in readers})
+    e3.standard(sc, eng, name, bounds, props, replayer=_e3.native_replayer("C02", "c02", roles, {f"tag{i}": tag[i] for i in inst}))
 
 
 def run(tier, seed, t0):
@@ -102,6 +104,8 @@ def run(tier, seed, t0):
 def replay(path):
     if path.endswith(".vals"):
         return _kprop.replay(path)
-    print("E3 schedule file:", path)
-    print(open(path).read()[:3000])
-    return 0
+    import replay_e3
+    status, out = replay_e3.run("c02", path)
+    print(status)
+    print(out)
+    return 1 if status == "reproduced" else 0
